@@ -23,6 +23,8 @@ CLAIMED = {
          "token level; whole-document balance (field counting) exercised by round-trip ops; recorded finding timestamp-96 field order"),
  "C07": ("proof", "ByteCodeTable (regenerated) equals the spec's format table for all 256 bytes; all 10 integer formats x 10 targets at any position; floats, headers of every width; no strict prefix of a token is a token; stream reader compared with the string reader on every op.",
          "value readers proved on well-formed encodings + truncation; stream reader tied by correspondence only; recorded findings: timestamp-96 order, nanoseconds not validated, NaN/Inf into float"),
+ "C08": ("proof", "Adapter theorems over an abstract DOM: the DOM built on save is the intended data model (names, nesting, order, attributes, lexical values); loading a DOM delivers the abstract result for any member order; numbers exact or policy; save raises exactly when the writer rejects; round trip under an explicit lawful-codec hypothesis. Spec parsers written from RFC 8259 / XML 1.0 judge every produced document; Python json/ElementTree re-render and re-load (test oracle).",
+         "PARTIAL: RapidJSON/pugixml print/parse are a parameter (hypothesis `Codec.Lawful`), exercised not proved; Python parsers are test oracles; 9 recorded finding classes (third-party behaviour and XML mapping non-injectivity)"),
  "C09": ("proof", "For every allowed separator and every table with arbitrary cells the RFC-4180 recogniser reads the writer's output back exactly; the reader conforms to the recogniser on every rendering (any quoting, LF/CRLF, final break, column order) and every by-key/by-index script; width mismatch rejected.",
          "cells are strings (numbers/dates via C16/C14); one recorded finding (empty array does not round-trip)"),
  "C10": ("proof", "Refinement: CBinaryStreamReader equals a plain cursor for every cache size N>0, byte string and operation history; CSV stream reader refines the memory reader for every chunk size, text and script; stream writers equal string writers. MsgPack/CSV documents run from memory and from streams across the 256-byte boundary.",
